@@ -20,6 +20,9 @@ Cons(p) == {Le(p.m[i], p.b[i]) : i \in 1..Len(p.m)}
 SamePoly(p, r) == p.n = r.n /\ SetEq(Cons(p), Cons(r), p.n)
 \* value of f at the point xs/den, scaled by f.q * den
 Apply(f, xs, den) == [r \in 1..Len(f.m) |-> Dot(f.m[r], xs) + f.b[r] * den]
+\* value of the transposed map  M^T (x - c)  at the point xs/den, scaled by f.q * f.q * den
+ApplyTranspose(f, xs, den) == RowTimesMat(VSub(Scale(f.q, xs), Scale(den, f.b)), f.m)
+ResetRow(f, r) == AQ([i \in 1..Len(f.m) |-> IF i = r + 1 THEN ZeroVec(f.n) ELSE f.m[i]], [i \in 1..Len(f.b) |-> IF i = r + 1 THEN 0 ELSE f.b[i]], f.q, f.n)
 Member(p, xs, den) == \A i \in 1..Len(p.m) : Dot(p.m[i], xs) <= p.b[i] * den
 
 \* ------------------------------------------------------------------ AffFunc constructors (documentation = definition)
